@@ -25,7 +25,8 @@ Dev(name) == name \in Deviations /\ TLCSet(7, TLCGet(7) \cup {name})
 \* over 20 waiters makes 2^k identical successors)
 Or(a, b) == IF a THEN TRUE ELSE b
 Justified(w) == Or(seen[w] >= rq[w], early[w])
-Tabs == {"t", "u"}
+Tabs == {"t", "u"} \cup {"f1", "f2", "f3", "f4", "f5", "f6", "f7", "f8", "f9", "f10", "f11", "f12", "f13", "f14", "f15", "f16",
+                     "f17", "f18", "f19", "f20", "f21", "f22"}      \* f<n>: tables of the first-Add stage
 Ev == TraceLog[l]
 IsEvent(name) == l <= Len(TraceLog) /\ Ev.ev = name /\ l' = l + 1
 
